@@ -146,7 +146,18 @@ class WalletProp(BaseProp):
                     sub = list(case["sub"])
                     form = case.get("path_form")          # the same sub-path handed over as another iterable
                     arg = {None: sub, "tuple": tuple(sub), "iter": iter(sub), "gen": (i for i in sub), "map": map(int, sub)}[form]
-                    ov = node_view(wo, wo.master.derive_path(arg))
+                    for wp in case.get("warm", []):
+                        # earlier look-ups on the SAME watch-only wallet (its master node object), in the given order
+                        wo.master.derive_path(list(wp))
+                    if case.get("retain") is not None:
+                        # one retained public node object asked for several children, in the given order, before the one observed
+                        kq = case["retain"]
+                        nd = wo.master.derive_path(sub[:kq])
+                        for wi in case.get("warm_idx", []):
+                            nd.ckd(index=wi)
+                        ov = node_view(wo, nd.derive_path(sub[kq:]))
+                    else:
+                        ov = node_view(wo, wo.master.derive_path(arg))
                 except Exception:
                     ov = None
             return {"xpub": xpub, "ob": ov, "full": fv, "or": c_oracles(rec), "err": ov is None}
